@@ -188,7 +188,7 @@ func (fx *FuncExec) step(ps *pathState, in ssa.Instruction, pred *ssa.BasicBlock
 		if p.Sym != "" {
 			p, _ = st.resolve(p)
 		}
-		st.regs[x] = PtrV{Obj: p.Obj, Path: append(append([]Step(nil), p.Path...), Step{Field: x.Field}), Typ: ft}
+		st.regs[x] = PtrV{Obj: p.Obj, Sym: p.Sym, Root: p.Root, Path: append(append([]Step(nil), p.Path...), Step{Field: x.Field}), Typ: ft}
 	case *ssa.Field:
 		v := fx.val(st, x.X)
 		if sv, ok := v.(StructV); ok {
@@ -222,7 +222,7 @@ func (fx *FuncExec) step(ps *pathState, in ssa.Instruction, pred *ssa.BasicBlock
 			if b.Sym != "" {
 				b, _ = st.resolve(b)
 			}
-			st.regs[x] = PtrV{Obj: b.Obj, Path: append(append([]Step(nil), b.Path...), Step{Field: -1, Idx: idx}), Typ: x.Type()}
+			st.regs[x] = PtrV{Obj: b.Obj, Sym: b.Sym, Root: b.Root, Path: append(append([]Step(nil), b.Path...), Step{Field: -1, Idx: idx}), Typ: x.Type()}
 		default:
 			c.unsup("IndexAddr on %T", base)
 			st.regs[x] = PtrV{Sym: c.fresh("elemaddr", SRef).S, Typ: x.Type()}
@@ -306,9 +306,46 @@ func (fx *FuncExec) step(ps *pathState, in ssa.Instruction, pred *ssa.BasicBlock
 	case *ssa.TypeAssert:
 		fx.typeAssert(ps, x)
 	case *ssa.Range:
-		c.unsup("range over map/string at %s", fx.posStr(in.Pos()))
+		if _, ok := x.X.Type().Underlying().(*types.Map); ok {
+			// the iterator remembers the map as it is now; Next reads the live map where it can
+			st.regs[x] = fx.val(st, x.X)
+			delete(st.iterVisited, x)
+			return
+		}
+		c.unsup("range over string at %s", fx.posStr(in.Pos()))
 		st.regs[x] = Scalar{c.fresh("iter", SRef), x.Type()}
 	case *ssa.Next:
+		if rg, ok := x.Iter.(*ssa.Range); ok && !x.IsString {
+			if m, ok := fx.liveMap(st, rg).(MapV); ok {
+				// an arbitrary key of the map (iteration order is unspecified); every iteration sees a key
+				// that is present at that moment, with its current value
+				mt := m.Typ.Underlying().(*types.Map)
+				okT := c.fresh("next.ok", SBool)
+				kv := st.freshVal(mt.Key(), "next.key", 0)
+				k := st.toLeaf(kv, st.keySort(mt.Key()))
+				st.assume(tImplies(okT, app(SBool, "select", m.Dom, k)))
+				st.assume(tImplies(okT, tLt(intLit(0), m.Len)))
+				// ghost: the keys visited so far; a key is visited at most once, and when the iteration
+				// ends every key of the map has been visited
+				ks := st.keySort(mt.Key())
+				vsort := "(Array " + ks + " Bool)"
+				vis, have := st.iterVisited[rg]
+				if !have {
+					vis = Term{"((as const " + vsort + ") false)", vsort}
+				}
+				st.assume(tImplies(okT, tNot(app(SBool, "select", vis, k))))
+				bk := c.boundName("vk")
+				st.assume(tImplies(tNot(okT), Term{fmt.Sprintf("(forall ((%s %s)) (=> (select %s %s) (select %s %s)))", bk, ks, m.Dom.S, bk, vis.S, bk), SBool}))
+				if st.iterVisited == nil {
+					st.iterVisited = map[*ssa.Range]Term{}
+				}
+				st.iterVisited[rg] = tIte(okT, app(vsort, "store", vis, k, tTrue), vis)
+				st.iterBefore = vis
+				v := st.mapSelect(m, k)
+				st.regs[x] = TupleV{E: []Val{Scalar{okT, types.Typ[types.Bool]}, kv, v}}
+				return
+			}
+		}
 		st.regs[x] = st.freshVal(x.Type(), x.Name(), 0)
 	case *ssa.Defer:
 		c.unsup("defer at %s (deferred call not executed)", fx.posStr(in.Pos()))
@@ -586,6 +623,12 @@ func lastSortArg(arr string) string {
 // straight-line code.
 func (fx *FuncExec) writeBackMap(ps *pathState, src ssa.Value, old, nm MapV) {
 	st := ps.st
+	// a map held in a field of a heap object: write the new map value to that field
+	if u, ok := src.(*ssa.UnOp); ok && u.Op == token.MUL {
+		if p, ok := st.regs[u.X].(PtrV); ok && isHeapPtr(p) {
+			st.store(p, nm)
+		}
+	}
 	for id, v := range st.objs {
 		st.objs[id] = replaceMap(v, old, nm)
 	}
@@ -649,3 +692,16 @@ func (fx *FuncExec) typeAssert(ps *pathState, x *ssa.TypeAssert) {
 }
 
 var _ = big.NewInt
+
+// liveMap: the map a range statement iterates over, as it is now (re-read from its location when the
+// range operand is a load), else as it was when the loop started.
+func (fx *FuncExec) liveMap(st *State, rg *ssa.Range) Val {
+	if u, ok := rg.X.(*ssa.UnOp); ok && u.Op == token.MUL {
+		if p, ok := st.regs[u.X].(PtrV); ok {
+			if v, ok := st.load(p); ok {
+				return v
+			}
+		}
+	}
+	return st.regs[rg]
+}
